@@ -204,6 +204,12 @@ pub fn main(args: Args) {
         run2.eval();
         report(&run2, i, n_gates, r);
     });
+    // Sanitizer arm (thorough tier): the same swap workload under valgrind memcheck — the dlopen'ed
+    // cc artifacts, the Cranelift code and the hand-over between them run on memcheck's synthetic CPU.
+    let vg_cases = args.budget("memcheck_cases", 0, 8);
+    if vg_cases > 0 && args.get("memcheck_child").is_none() {
+        crate::common::memcheck_arm(&run, &args, "C33", vg_cases, &[("cycles", "10".to_string()), ("gates", "4".to_string())]);
+    }
     run.finish(&[
         ("designs_swapped", 10),
         ("swap_points", 6),
